@@ -38,6 +38,16 @@ Theorem C07_iter_contract : forall rv d s, dsorted rv d -> dsorted rv s ->
 Proof. exact C07_iter_contract_proof. Qed.
 Print Assumptions C07_iter_contract.
 
+(* Error path: when the Next of an inner iterator fails (at any position, either side), UnionIter yields a prefix
+   of what it would have yielded and then reports the error — at creation, inside updateCur, or in Next, exactly
+   where the code returns it; without a failure the result is the merge and no error. *)
+Theorem C07_iter_error_path : forall rv fd fs d s,
+  (exists rest, union_iter rv d s = fst (union_iter_f rv fd fs d s) ++ rest /\
+                (snd (union_iter_f rv fd fs d s) = false -> rest = [])) /\
+  union_iter_f rv 0 0 d s = (union_iter rv d s, false).
+Proof. exact iter_error_path. Qed.
+Print Assumptions C07_iter_error_path.
+
 (* Get: buffer first, snapshot on miss, empty = not exist  ==  lookup in the overlay *)
 Theorem C07_get : forall snap buf k, sorted buf -> sorted snap -> no_tomb snap ->
   union_get snap buf k = kv_get (overlay snap buf) k.
@@ -176,6 +186,16 @@ Example revert_example :
   length (b_log (run true ops st1)) = 3%nat /\     (* 22 appended (protected 11), 33 written in place over 22 *)
   m_get [] (step true (run true ops st1) (ORevert (checkpoint_pos st))) [97] = Some [1; 1].
 Proof. split; [repeat constructor; cbn; lia|]. repeat split; vm_compute; reflexivity. Qed.
+
+Example iter_error_example :
+  let d := [([97], [1]); ([98], []); ([99], [3])] in
+  let s := [([98], [7]); ([100], [8])] in
+  union_iter false d s = [([97], [1]); ([99], [3]); ([100], [8])] /\
+  union_iter_f false 2 0 d s = ([([97], [1])], true) /\      (* dirtyNext inside updateCur fails while skipping the tombstone *)
+  union_iter_f false 0 1 d s = ([([97], [1])], true) /\      (* snapshotNext for the hidden snapshot entry fails *)
+  union_iter_f false 3 0 d s = ([([97], [1]); ([99], [3])], true) /\
+  union_iter_f false 0 2 d s = ([([97], [1]); ([99], [3]); ([100], [8])], true).
+Proof. vm_compute. repeat split; reflexivity. Qed.
 
 (* reverse iteration with bounds on inputs that are only sorted descending (the contract of IterReverse) *)
 Example iter_contract_example :
